@@ -266,15 +266,7 @@ func (interp *Interpreter) cfg(root *node, sc *scope, importPath, pkgName string
 			// Pre-define symbols for labels defined in this block, so we are sure that
 			// they are already defined when met.
 			// TODO(marc): labels must be stored outside of symbols to avoid collisions.
-			for _, c := range n.child {
-				if c.kind != labeledStmt {
-					continue
-				}
-				label := c.child[0].ident
-				sym := &symbol{kind: labelSym, node: c, index: -1}
-				sc.sym[label] = sym
-				c.sym = sym
-			}
+			defineLabels(sc, n)
 			// If block is the body of a function, get declared variables in current scope.
 			// This is done in order to add the func signature symbols into sc.sym,
 			// as we will need them in post-processing.
@@ -333,11 +325,17 @@ func (interp *Interpreter) cfg(root *node, sc *scope, importPath, pkgName string
 				nod.typ = typ
 			}
 
+		case caseBody:
+			// The statement list of a clause is a block, labels can be defined in it.
+			defineLabels(sc, n)
+
 		case commClauseDefault:
 			sc = sc.pushBloc()
+			defineLabels(sc, n)
 
 		case commClause:
 			sc = sc.pushBloc()
+			defineLabels(sc, n)
 			if len(n.child) > 0 && n.child[0].action == aAssign {
 				ch := n.child[0].child[1].child[0]
 				var typ *itype
@@ -2325,6 +2323,20 @@ func fixUntyped(nod *node, sc *scope) {
 		}
 		return true
 	}, nil)
+}
+
+// defineLabels pre-defines in scope sc the symbols for labels defined in the
+// statement list n, so we are sure that they are already defined when met.
+func defineLabels(sc *scope, n *node) {
+	for _, c := range n.child {
+		if c.kind != labeledStmt {
+			continue
+		}
+		label := c.child[0].ident
+		sym := &symbol{kind: labelSym, node: c, index: -1}
+		sc.sym[label] = sym
+		c.sym = sym
+	}
 }
 
 func compDefineX(sc *scope, n *node) error {
